@@ -43,13 +43,18 @@ MObs(st) ==
    w |-> [jj \in 1..Len(DirSeq(st)) |-> LET i == DirSeq(st)[jj] IN
             [n |-> WN(st, i), ln |-> WL(st, i), st |-> st.ws[i].st, np |-> st.ws[i].np, npbad |-> FALSE, sing |-> st.ws[i].sing,
              resp |-> st.ws[i].resp, G |-> st.ws[i].G * 100, W |-> st.ws[i].W * 100, ssig |-> st.ws[i].ssig,
-             sch |-> st.ws[i].sch, od |-> st.ws[i].od, mage |-> 0, hup |-> st.ws[i].hup,
+             sch |-> st.ws[i].sch, od |-> st.ws[i].od, mage |-> 0, hup |-> st.ws[i].hup, ver |-> st.cfg.ws[i].ver,
              pr |-> [j \in 1..Len(st.ws[i].pr) |->
                        <<st.ws[i].pr[j].p, st.ws[i].pr[j].wid, IF st.k[st.ws[i].pr[j].p].stp THEN 1 ELSE 0>>]]],
    k |-> [p \in 1..NP(st) |-> <<p, st.k[p].st, st.k[p].ws, st.k[p].par>>],
    fl |-> Len(st.rq) + Cardinality(st.tm) + Len(st.cur)]
 
-MCfg(cfg) == [cd |-> cfg.cd * 100, wg |-> cfg.wg * 100,
+\* a section record of a configuration file as the monitors see it (times in ms)
+FileMs(r) == [n |-> r.n, ln |-> r.ln, np |-> r.np, ver |-> r.ver, G |-> r.G * 100, W |-> r.W * 100, sing |-> r.sing,
+              prio |-> r.prio, auto |-> r.auto, resp |-> r.resp, ssig |-> r.ssig, sch |-> r.sch, hup |-> r.hup,
+              retry |-> r.retry]
+MCfg(cfg) == [fm |-> TRUE, file |-> [i \in 1..Len(cfg.ws) |-> FileMs(cfg.ws[i])],
+              cd |-> cfg.cd * 100, wg |-> cfg.wg * 100,
               ws |-> [i \in 1..Len(cfg.ws) |->
                         [n |-> cfg.ws[i].ln, np |-> cfg.ws[i].np, G |-> cfg.ws[i].G * 100, W |-> cfg.ws[i].W * 100,
                          sing |-> cfg.ws[i].sing, resp |-> cfg.ws[i].resp, auto |-> cfg.ws[i].auto,
@@ -63,7 +68,8 @@ MLine(before, after) ==
                cb |-> IF o.k \in EnvLineKinds THEN 0 ELSE IF before.cur # <<>> \/ o.k \notin {"die", "extkill", "fork"} THEN 1 ELSE 0,
                k |-> o.k, w |-> o.w, p |-> o.p, a |-> o.a, b |-> IF o.k = "reply" THEN 1 ELSE 0, c |-> 0,
                r |-> o.r, x |-> o.x]
-  IN IF o.k = "req" THEN base @@ [q |-> [after.creq EXCEPT !.G = IF @ = -1 THEN -1 ELSE @ * 100]]
+  IN IF o.k = "req" THEN base @@ [q |-> [after.creq EXCEPT !.G = IF @ = -1 THEN -1 ELSE @ * 100,
+                                                            !.file = [j \in 1..Len(@) |-> FileMs(@[j])]]]
      ELSE IF o.k = "reply" THEN base @@ [rc |-> ""] ELSE base
 
 \* what the read-only requests would answer in state st (commands/list.py, numprocesses.py, status.py, stats.py)
@@ -160,6 +166,7 @@ Inv_C05 == Unexplained({"C05_noblock", "C05_readnow", "C05_bound"}) = {}
 Inv_C06 == Unexplained({"C06_reply", "C06_status", "C06_all"}) = {}
 Inv_C08 == Unexplained({"C08_done"}) = {}
 Inv_C09 == Unexplained({"C09_spawn", "C09_reap", "C09_live", "C09_startstop"}) = {}
+Inv_C12 == Unexplained({"C12_conv", "C12_keep"}) = {}
 Inv_C10 == Unexplained({"C10_wedge", "C10_refuse", "C10_accept", "C10_held"}) = {}
 Inv_C11 == Unexplained({"C11_unchanged", "C10_refuse"}) = {}
 Inv_C13 == Unexplained({"C13_wid"}) = {}
